@@ -287,16 +287,16 @@ func mapAttributeValueToTypes(attrs map[string]*dynamodb.AttributeValue) map[str
 		}
 
 		mapItems[key] = &types.Item{
-			B:    attr.B,
-			BOOL: attr.BOOL,
-			BS:   attr.BS,
+			B:    copyBytes(attr.B),
+			BOOL: copyBool(attr.BOOL),
+			BS:   copyBytesSlice(attr.BS),
 			L:    mapAttributeValueListToTypes(attr.L),
 			M:    mapAttributeValueToTypes(attr.M),
-			N:    attr.N,
-			NS:   attr.NS,
-			NULL: attr.NULL,
-			S:    attr.S,
-			SS:   attr.SS,
+			N:    copyString(attr.N),
+			NS:   copyStringSlice(attr.NS),
+			NULL: copyBool(attr.NULL),
+			S:    copyString(attr.S),
+			SS:   copyStringSlice(attr.SS),
 		}
 	}
 
@@ -316,16 +316,16 @@ func mapAttributeValueListToTypes(attrs []*dynamodb.AttributeValue) []*types.Ite
 		}
 
 		mapItems[i] = &types.Item{
-			B:    attr.B,
-			BOOL: attr.BOOL,
-			BS:   attr.BS,
+			B:    copyBytes(attr.B),
+			BOOL: copyBool(attr.BOOL),
+			BS:   copyBytesSlice(attr.BS),
 			L:    mapAttributeValueListToTypes(attr.L),
 			M:    mapAttributeValueToTypes(attr.M),
-			N:    attr.N,
-			NS:   attr.NS,
-			NULL: attr.NULL,
-			S:    attr.S,
-			SS:   attr.SS,
+			N:    copyString(attr.N),
+			NS:   copyStringSlice(attr.NS),
+			NULL: copyBool(attr.NULL),
+			S:    copyString(attr.S),
+			SS:   copyStringSlice(attr.SS),
 		}
 	}
 
@@ -341,16 +341,16 @@ func mapAttributeValueToDynamodb(attrs map[string]*types.Item) map[string]*dynam
 
 	for key, attr := range attrs {
 		mapItems[key] = &dynamodb.AttributeValue{
-			B:    attr.B,
-			BOOL: attr.BOOL,
-			BS:   attr.BS,
+			B:    copyBytes(attr.B),
+			BOOL: copyBool(attr.BOOL),
+			BS:   copyBytesSlice(attr.BS),
 			L:    mapAttributeValueListToDynamodb(attr.L),
 			M:    mapAttributeValueToDynamodb(attr.M),
-			N:    attr.N,
-			NS:   attr.NS,
-			NULL: attr.NULL,
-			S:    attr.S,
-			SS:   attr.SS,
+			N:    copyString(attr.N),
+			NS:   copyStringSlice(attr.NS),
+			NULL: copyBool(attr.NULL),
+			S:    copyString(attr.S),
+			SS:   copyStringSlice(attr.SS),
 		}
 	}
 
@@ -376,18 +376,78 @@ func mapAttributeValueListToDynamodb(attrs []*types.Item) []*dynamodb.AttributeV
 
 	for i, attr := range attrs {
 		mapItems[i] = &dynamodb.AttributeValue{
-			B:    attr.B,
-			BOOL: attr.BOOL,
-			BS:   attr.BS,
+			B:    copyBytes(attr.B),
+			BOOL: copyBool(attr.BOOL),
+			BS:   copyBytesSlice(attr.BS),
 			L:    mapAttributeValueListToDynamodb(attr.L),
 			M:    mapAttributeValueToDynamodb(attr.M),
-			N:    attr.N,
-			NS:   attr.NS,
-			NULL: attr.NULL,
-			S:    attr.S,
-			SS:   attr.SS,
+			N:    copyString(attr.N),
+			NS:   copyStringSlice(attr.NS),
+			NULL: copyBool(attr.NULL),
+			S:    copyString(attr.S),
+			SS:   copyStringSlice(attr.SS),
 		}
 	}
 
 	return mapItems
+}
+
+// the copy helpers keep stored attribute values from sharing memory with the
+// structures the caller passed in or received
+
+func copyString(s *string) *string {
+	if s == nil {
+		return nil
+	}
+
+	value := *s
+
+	return &value
+}
+
+func copyBool(b *bool) *bool {
+	if b == nil {
+		return nil
+	}
+
+	value := *b
+
+	return &value
+}
+
+func copyBytes(b []byte) []byte {
+	if b == nil {
+		return nil
+	}
+
+	out := make([]byte, len(b))
+	copy(out, b)
+
+	return out
+}
+
+func copyBytesSlice(bs [][]byte) [][]byte {
+	if bs == nil {
+		return nil
+	}
+
+	out := make([][]byte, len(bs))
+	for i, b := range bs {
+		out[i] = copyBytes(b)
+	}
+
+	return out
+}
+
+func copyStringSlice(ss []*string) []*string {
+	if ss == nil {
+		return nil
+	}
+
+	out := make([]*string, len(ss))
+	for i, s := range ss {
+		out[i] = copyString(s)
+	}
+
+	return out
 }
